@@ -14,7 +14,7 @@ import (
 // C13 — a bundle is never sent back to where it came from, nor twice to the same peer.
 
 var c13Algos = []string{"epidemic", "epidemic", "prophet", "spray", "binary_spray", "dtlsr", "sensor-mule"}
-var c13Ops = []string{"submit", "submit", "recv", "recv", "recv", "recvdup", "up", "up", "up", "up", "down", "script", "script", "script", "tick", "tick", "tick", "tick", "restart", "advertise", "advertise", "broadcast", "recvbroadcast"}
+var c13Ops = []string{"submit", "submit", "recv", "recv", "recv", "recvdup", "up", "up", "up", "up", "up2", "down", "script", "script", "script", "tick", "tick", "tick", "tick", "restart", "advertise", "advertise", "broadcast", "recvbroadcast"}
 
 type c13Track struct {
 	prev       string          // previous node of the accepted copy ("" none)
@@ -292,7 +292,7 @@ type c13Dir struct {
 	DFails   bool   `json:"d_fails"`    // transmissions to D fail
 	DDown    bool   `json:"d_down"`     // D disappears afterwards
 	PLate    bool   `json:"p_late"`     // P appears only after the bundle arrived
-	Q        int    `json:"q"`          // third peer: 0 never, 1 before the bundle, 2 after it, 3 before it and failing first
+	Q        int    `json:"q"`          // third peer: 0 never, 1 before the bundle, 2 after it, 3 before it and failing first, 4 before it over two convergence layers, 5 after it over two layers
 	Restart  bool   `json:"restart"`    // orderly restart before the last ticks
 	Copies   int    `json:"copies"`     // binary spray: copies announced in the received bundle (0 = no block)
 	Bcast    int    `json:"bcast"`      // dtlsr: link-state broadcasts of one origin arriving via P: 0 none, 1 = two fresh ones, 2 = fresh then stale, 3 = fresh, stale, fresh
@@ -318,10 +318,13 @@ func (d c13Dir) history() hCase {
 			op("script", 1, false)
 		}
 	}
-	if d.Q == 1 || d.Q == 3 {
+	if d.Q == 1 || d.Q == 3 || d.Q == 4 {
 		op("up", 2, false)
 		if d.Q == 3 {
 			op("script", 2, false)
+		}
+		if d.Q == 4 {
+			op("up2", 2, false)
 		}
 	}
 	op("advertise", 0, false)
@@ -356,8 +359,11 @@ func (d c13Dir) history() hCase {
 	if d.PLate {
 		op("up", 0, false)
 	}
-	if d.Q == 2 {
+	if d.Q == 2 || d.Q == 5 {
 		op("up", 2, false)
+	}
+	if d.Q == 5 {
+		op("up2", 2, false)
 	}
 	if d.Q == 3 {
 		op("script", 2, true)
@@ -377,7 +383,7 @@ func (d c13Dir) history() hCase {
 
 func TestVerifC13Directed(t *testing.T) {
 	u := vk.Unit{Property: "C13", Name: "c13.directed",
-		Rule: "exhaustive product of circumstances around ONE bundle and three peers P (previous node), D (destination node) and Q (relay), per algorithm (epidemic, prophet, spray, binary_spray with 0/1/5 announced copies, dtlsr, sensor-mule): submitted or received from P; destination D or a node that never connects; D connected at arrival or not, its transmissions failing or not, D disappearing afterwards or not; P connected before or only after the arrival; Q never / before / after / before-and-failing-first; orderly restart or not; for dtlsr additionally two or three link-state broadcasts of one origin arriving via P with fresh or stale link-state data; then retry ticks. Oracle as c13.histories. Every case is non-trivial (the previous node is connected while the bundle is held); distinct by tuple"}
+		Rule: "exhaustive product of circumstances around ONE bundle and three peers P (previous node), D (destination node) and Q (relay), per algorithm (epidemic, prophet, spray, binary_spray with 0/1/5 announced copies, dtlsr, sensor-mule): submitted or received from P; destination D or a node that never connects; D connected at arrival or not, its transmissions failing or not, D disappearing afterwards or not; P connected before or only after the arrival; Q never / before / after / before-and-failing-first / connected over two convergence layers (before or after); orderly restart or not; for dtlsr additionally two or three link-state broadcasts of one origin arriving via P with fresh or stale link-state data; then retry ticks. Oracle as c13.histories. Every case is non-trivial (the previous node is connected while the bundle is held); distinct by tuple"}
 	vk.Enumerate(t, u, true, func(yield func(c13Dir) bool) {
 		i := 0
 		bools := []bool{false, true}
@@ -402,7 +408,7 @@ func TestVerifC13Directed(t *testing.T) {
 										continue
 									}
 									for _, pLate := range bools {
-										for q := 0; q <= 3; q++ {
+										for q := 0; q <= 5; q++ {
 											for _, restart := range bools {
 												bcasts := []int{0}
 												if algo == "dtlsr" && !destPeer {
